@@ -236,8 +236,11 @@ def cases():
         out.append(("items", cur, "with_item(name='n', qty=3)", lambda b, kw: b.with_item(name="n", qty=3, **kw),
                     lambda c: list(c or []) + [Item("n", qty=3)]))
         out.append(("items", cur, "with_item('k')", lambda b, kw: b.with_item("k", **kw), lambda c: list(c or []) + [Item("k")]))
-        out.append(("items", cur, "with_item(Item('z', 4), qty=5)", lambda b, kw: b.with_item(Item("z", qty=4), qty=5, **kw),
-                    lambda c: list(c or []) + [Item("z", qty=5)]))
+        def with_arg(b, kw):
+            with_arg.arg = Item("z", qty=4)          # the caller's own object: must not be modified (C01)
+            with_arg.before = copy.deepcopy(with_arg.arg)
+            return b.with_item(with_arg.arg, qty=5, **kw)
+        out.append(("items", cur, "with_item(Item('z', 4), qty=5)", with_arg, lambda c: list(c or []) + [Item("z", qty=5)]))
         for ix in (0, 1, 5):
             def upd(c, ix=ix):
                 l = copy.deepcopy(list(c or []))
@@ -295,6 +298,8 @@ def run_case(i, inplace):
         return None
     if exc is not None:
         return "%s: unexpected %s: %s (the plain container operation gives %r)" % (where, type(exc).__name__, exc, exp)
+    if getattr(call, "arg", None) is not None and call.arg != call.before:
+        return "%s: the argument object was modified: %r -> %r" % (where, call.before, call.arg)
     got = content(r, attr)
     if got != exp or (exp is not None and type(got) is not type(exp)):
         return "%s: gives %r, the plain container operation gives %r" % (where, got, exp)
